@@ -328,6 +328,77 @@ theorem parked_wf {F : Flags} {n : Nat} {s1 : State} (h : Reach F n s1) (steps :
     refine ⟨(good_of_views (st' := parkedState ro .forward s1 (run F (placeOps steps) s1)) h.good hsch hks k.valSeq hser hwr
       k.dict k.inv (by simp only [parkedState, hro]; exact hybridFwd_all k.fwd k.fwdFiles)).wf, ?_⟩
     rw [core_eq_iff]; exact ⟨hsch, hks, hser, hwr⟩
+  | values =>
+    simp only [ReadOrder.memFirstAt] at hro
+    refine ⟨(good_of_views (st' := parkedState ro .values s1 (run F (placeOps steps) s1)) h.good hsch hks k.valSeq hser hwr
+      (by simp only [parkedState, hro]; exact hybridDict_all k.dict k.dictFiles) k.inv k.fwd).wf, ?_⟩
+    rw [core_eq_iff]; exact ⟨hsch, hks, hser, hwr⟩
+  | collect =>
+    simp only [ReadOrder.memFirstAt] at hro
+    refine ⟨(good_of_views (st' := parkedState ro .collect s1 (run F (placeOps steps) s1)) h.good hsch hks k.valSeq hser hwr
+      (by simp only [parkedState, hro]; exact hybridDict_all k.dict k.dictFiles) k.inv k.fwd).wf, ?_⟩
+    rw [core_eq_iff]; exact ⟨hsch, hks, hser, hwr⟩
+  | suggest =>
+    simp only [ReadOrder.memFirstAt] at hro
+    refine ⟨(good_of_views (st' := parkedState ro .suggest s1 (run F (placeOps steps) s1)) h.good hsch hks k.valSeq hser hwr
+      (by simp only [parkedState, hro]; exact hybridDict_all k.dict k.dictFiles) k.inv k.fwd).wf, ?_⟩
+    rw [core_eq_iff]; exact ⟨hsch, hks, hser, hwr⟩
+  | invGet =>
+    simp only [ReadOrder.memFirstAt] at hro
+    refine ⟨(good_of_views (st' := parkedState ro .invGet s1 (run F (placeOps steps) s1)) h.good hsch hks k.valSeq hser hwr
+      k.dict (by simp only [parkedState, hro]; exact hybridInv_all k.inv k.invFiles) k.fwd).wf, ?_⟩
+    rw [core_eq_iff]; exact ⟨hsch, hks, hser, hwr⟩
+  | grouping =>
+    simp only [ReadOrder.memFirstAt] at hro
+    refine ⟨(good_of_views (st' := parkedState ro .grouping s1 (run F (placeOps steps) s1)) h.good hsch hks k.valSeq hser hwr
+      k.dict k.inv (by simp only [parkedState, hro]; exact hybridFwd_all k.fwd k.fwdFiles)).wf, ?_⟩
+    rw [core_eq_iff]; exact ⟨hsch, hks, hser, hwr⟩
+
+/-- ... and its forward files are readable (`LutSafe`) -/
+theorem parked_lutSafe {F : Flags} {n : Nat} {s1 : State} (h : Reach F n s1) (steps : List Step) (ro : ReadOrder)
+    (pt : ParkPoint) (hro : ro.memFirstAt pt = true) :
+    LutSafe F (parkedState ro pt s1 (run F (placeOps steps) s1)) := by
+  obtain ⟨k, r⟩ := steps_keep (F := F) steps h
+  have hyb : ∀ st' : State, st'.fwd = hybridFwd true s1.fwd (run F (placeOps steps) s1).fwd → LutSafe F st' := by
+    intro st' hst
+    constructor
+    · intro f hf
+      rw [hst] at hf
+      exact r.lut.files f (by simpa [hybridFwd, Fwd.files] using hf)
+    · intro hc e he
+      rw [hst] at he
+      exact h.lut.small hc e ((hybridFwd_all k.fwd k.fwdFiles e).mp he)
+  have same : ∀ st' : State, st'.fwd = (run F (placeOps steps) s1).fwd → LutSafe F st' := by
+    intro st' hst
+    exact ⟨by rw [hst]; exact r.lut.files, by rw [hst]; exact r.lut.small⟩
+  cases pt with
+  | forward => simp only [ReadOrder.memFirstAt] at hro; exact hyb _ (by simp [parkedState, hro])
+  | grouping => simp only [ReadOrder.memFirstAt] at hro; exact hyb _ (by simp [parkedState, hro])
+  | dictFind => exact same _ rfl
+  | dictScan => exact same _ rfl
+  | inverted => exact same _ rfl
+  | values => exact same _ rfl
+  | collect => exact same _ rfl
+  | suggest => exact same _ rfl
+  | invGet => exact same _ rfl
+
+theorem mem_dict_values {d : Dict} {kid : KeyId} {id : ValId} :
+    id ∈ d.values kid ↔ ∃ v, (kid, v, id) ∈ d.all := by
+  unfold Dict.values
+  simp only [List.mem_map, List.mem_filter, List.mem_append, beq_iff_eq, mem_dict_all]
+  constructor
+  · rintro ⟨⟨a, b, c⟩, ⟨hm, hk⟩, rfl⟩
+    simp at hk; subst hk
+    rcases hm with (hm | hm) | hm
+    · exact ⟨b, Or.inr (Or.inr hm)⟩
+    · exact ⟨b, Or.inl hm⟩
+    · exact ⟨b, Or.inr (Or.inl hm)⟩
+  · rintro ⟨v, hm⟩
+    refine ⟨(kid, v, id), ⟨?_, rfl⟩, rfl⟩
+    rcases hm with hm | hm | hm
+    · exact Or.inl (Or.inr hm)
+    · exact Or.inr hm
+    · exact Or.inl (Or.inl hm)
 
 /-! ### the abstract `like` matcher -/
 
